@@ -271,15 +271,20 @@ class FileInspector(abc.ABC):
         # data
         self._capture(chunk)
 
-        # Let the format do some post-read processing of the stream
-        self.post_process()
-
-        # Check to see if the post-read processing added new regions
-        # which may require the current chunk.
-        new_regions = set(self._capture_regions.values()) - pre_regions
-        if new_regions:
+        # Let the format do some post-read processing of the stream. Regions
+        # defined by that processing may require the current chunk, and may
+        # in turn allow further regions to be located within the same chunk,
+        # so repeat until no new regions appear.
+        known_regions = pre_regions
+        while True:
+            self.post_process()
+            current_regions = set(self._capture_regions.values())
+            new_regions = current_regions - known_regions
+            if not new_regions:
+                break
             self._capture(chunk, only=[self.region_name(r)
                                        for r in new_regions])
+            known_regions = current_regions
 
         post_complete = {region for region in self._capture_regions.values()
                          if region.complete}
